@@ -53,6 +53,8 @@ DOCS = {
   "A13": [st("html", upper=True), st("head", upper=True), st("meta", ' CLASS="x"', True, upper=True), et("head", upper=True), st("body", ' data-if="a > b"', upper=True),
           st("div", " title='1>0'"), tx("hi"), et("div"), st("p", ' class="x"', True, upper=True), tx("t"), et("p", upper=True), et("body", upper=True), et("html", upper=True)],
   "A14": [st("html"), st("head"), st("title"), tx("T"), et("title"), et("head"), st("body", ' data-if="a > b"'), st("div", " title='1>0'"), tx("hi"), et("div"), et("body"), et("html")],
+  # ~a~ ~y~ ~A~ are characters whose UTF-8 continuation bytes are 0xA0 / 0x85; unquoted values, attribute and tag names
+  "A15": [st("html"), st("body"), st("p", " title=voil~a~~A~ data-~y~=1"), tx("t~a~"), et("p"), st("x-~y~n", ' class="x"', True), tx("u"), et("x-~y~n"), et("body"), et("html")],
   # ---- comments, raw text, malformed, truncated (C03 / C04) ----
   "B1": [st("html"), COPEN, tx(" "), st("body"), tx(" "), CCLOSE, st("body"), tx("x"), et("body"), et("html")],
   "B2": [st("html"), st("head"), st("title"), tx("x "), st("body"), tx(" y"), et("title"), et("head"), st("body"), tx("z"), et("body"), et("html")],
@@ -68,6 +70,9 @@ DOCS = {
   "B12": [st("html"), st("p"), txlt("caf", "< b"), tx("~!~"), et("p"), et("html")],
   "B13": [st("html"), st("head"), st("meta", ' class="x"', True), tx("~!~"), et("head"), st("body"), tx("t"), et("body"), et("html")],
   "B14": [st("html"), st("head"), st("meta"), et("meta"), st("link", ' rel="y"'), et("head"), st("body"), et("span"), tx("t"), et("body"), et("html")],
+  # upper-case raw-text and table elements
+  "B15": [st("html"), st("head"), st("title", upper=True), tx("x"), et("title", upper=True), et("head"), st("body"), st("script", upper=True), tx("var a;"), et("script", upper=True),
+          st("table", upper=True), st("tr", upper=True), et("tr", upper=True), et("table", upper=True), tx("t"), et("body"), et("html")],
   "B11": [st("html"), st("body"), st("div", ' class="x"', True), tx("a"), st("div"), tx("b"), et("div"), et("div"), txlt("1 <", " 2"), et("body"), et("html")],
 }
 
@@ -128,7 +133,7 @@ def main():
     out.append("DocsMessy == {%s}" % ", ".join(n for n in DOCS if n.startswith("B")))
     out.append("FiltersAll == {%s}" % ", ".join(FILTERS))
     out.append("FiltersQuick == {F1, F2, F3, F4, F5, F6, F7, F8, F10, F11, F12, F16, F21, F23, F24, F25, F26, F27}")
-    out.append("DocsQuick == {A2, A3, A7, A8, A9, A10, A11, A13, A14, B1, B2, B3, B4, B5, B11, B12, B14}")
+    out.append("DocsQuick == {A2, A3, A7, A8, A9, A10, A11, A13, A14, A15, B1, B2, B3, B4, B5, B11, B12, B14, B15}")
     out.append("CasesQuick == Prod(DocsQuick, FiltersQuick)")
     out.append("CasesAll == Prod(DocsWell \\cup DocsMessy, FiltersAll)")
     out.append("=============================================================================")
